@@ -183,6 +183,9 @@ bool splinetable<Alloc>::read_fits_core(fitsfile* fits, const std::string& fileP
 			throw std::runtime_error("Invalid table dimension "+std::to_string(temp_dim));
 		ndim = temp_dim;
 	}
+	//From here on the table owns storage; if reading fails part way, release
+	//it and return to the empty state instead of leaving a partially built table.
+	storage_guard guard(this);
 	
 	//Read in any auxiliary keywords.
 	{
@@ -220,8 +223,10 @@ bool splinetable<Alloc>::read_fits_core(fitsfile* fits, const std::string& fileP
 				aux[i] = allocate<char_ptr>(2);
 				aux[i][0] = aux[i][1] = NULL;
 				aux[i][0] = allocate<char>(keylen);
-				aux[i][1] = allocate<char>(valuelen);
+				//fill the key in at once: release_storage() sizes the block by strlen()
 				std::copy(key,key+keylen,aux[i][0]);
+				aux[i][1] = allocate<char>(valuelen);
+				aux[i][1][0] = '\0';
 				//remove stupid quotes mandated by FITS, but not removed by cfitsio on reading
 				//Note that we do not attempt to remove whitespace, because we cannot 
 				//distinguish whitespace included by the user and whitespace pointlessly
@@ -310,8 +315,10 @@ bool splinetable<Alloc>::read_fits_core(fitsfile* fits, const std::string& fileP
 	//arrays which don't depend on the orders or numbers of knots before the
 	//ones which do
 	knots = allocate<double_ptr>(ndim);
+	std::fill(knots,knots+ndim,nullptr);
 	nknots = allocate<uint64_t>(ndim);
 	extents = allocate<double_ptr>(ndim);
+	extents[0] = nullptr;
 	extents[0] = allocate<double>(2*ndim);
 	
 	//Read the coefficient table
@@ -405,6 +412,7 @@ bool splinetable<Alloc>::read_fits_core(fitsfile* fits, const std::string& fileP
 	if(error!=0)
 		throw std::runtime_error("Error reading "+filePath+": Error "+std::to_string(error));
 	
+	guard.dismiss();
 	return (error==0);
 }
 
